@@ -353,12 +353,24 @@ class MdWorld:
         rd = self.readers[r]
         m = None if method == "none" else method
         carg = None if not cols else (cols[0] if colform == "str" else cols)
+        # the arguments in the forms callers use: the end left out for a read of one index (it defaults to the start),
+        # numpy scalars for the indices
+        self.nread = getattr(self, "nread", 0) + 1
+        noend = a == b and self.nread % 3 == 0
+        if self.nread % 4 == 1:
+            A, B = np.int64(A), np.uint64(B)
         if api == "read":
-            res, exc = self._call(ev, lambda: rd.read(A, B, columns=carg, method=m))
+            if noend:
+                res, exc = self._call(ev, lambda: rd.read(A, columns=carg, method=m))
+            else:
+                res, exc = self._call(ev, lambda: rd.read(A, B, columns=carg, method=m))
             if exc is None:
                 ev["rows"] = self._rows(res, cols, colform)
         elif api == "flatdict":
-            res, exc = self._call(ev, lambda: rd.read_flatdict(A, B, columns=carg, method=m, squeeze=False))
+            if noend:
+                res, exc = self._call(ev, lambda: rd.read_flatdict(A, columns=carg, method=m, squeeze=False))
+            else:
+                res, exc = self._call(ev, lambda: rd.read_flatdict(A, B, columns=carg, method=m, squeeze=False))
             if exc is None:
                 index = list(res["index"])
                 names = sorted(k for k in res if k != "index")
